@@ -196,8 +196,22 @@ func c10Slots(c *core.Ctx) {
 		}
 		c.Pass("a root is registered for every frame above its self-parent's up to its own", rule,
 			"AddRoot's slot loop runs from selfParentFrame+1 while frame <= root.Frame(), in steps of one")
-		isSlot := func(e ast.Expr) bool {
-			return e != nil && varOf(ar, c15Through(ar, core.StripConv(ar.Info(), e))) == loop.Var
+		// isSlot: e, read at point `at`, is the frame of the slot loop's iteration: the loop variable, a copy
+		// of it, or the member of a local record that was built from it (`r := RootAndSlot{Slot{Frame: f}}; r.Slot.Frame`)
+		isSlot := func(e ast.Expr, at core.Point) bool {
+			if e == nil {
+				return false
+			}
+			for i := 0; i < 4; i++ {
+				e = c15Through(ar, core.StripConv(ar.Info(), e))
+				if varOf(ar, e) == loop.Var {
+					return true
+				}
+				if e = c10LocalMember(ar, e, at); e == nil {
+					return false
+				}
+			}
+			return false
 		}
 		perIter := func(pts []core.Point) (bool, []core.Point) { return loop.it.EveryIterationPasses(pts, true) }
 
@@ -214,7 +228,7 @@ func c10Slots(c *core.Ctx) {
 				if first == nil {
 					first = cs
 				}
-				if fr := c10RecordFrame(ar, cs.Call.Args[0]); fr != nil && !isSlot(fr) {
+				if fr := c10RecordFrame(ar, cs.Call.Args[0]); fr != nil && !isSlot(fr, cs.Pt) {
 					badFrame = exprStr(fr)
 					continue
 				}
@@ -253,11 +267,11 @@ func c10Slots(c *core.Ctx) {
 				switch {
 				case methodNamed(cs.Name, "Get"), methodNamed(cs.Name, "Peek"), methodNamed(cs.Name, "Remove"):
 					anyTouch = cs
-					if isSlot(cs.Call.Args[0]) {
+					if isSlot(cs.Call.Args[0], cs.Pt) {
 						touches = append(touches, cs)
 					}
 				case methodNamed(cs.Name, "Add"):
-					if isSlot(cs.Call.Args[0]) {
+					if isSlot(cs.Call.Args[0], cs.Pt) {
 						adds = append(adds, cs)
 					}
 				}
@@ -288,7 +302,21 @@ func c10Slots(c *core.Ctx) {
 						ok, det = false, "the hit flag of the cache lookup is not kept"
 						continue
 					}
-					q := core.PathQuery{F: ar, From: t.Pt, FromAfter: true, Avoid: core.PointSet(core.Points(adds)...), AvoidEdge: ar.GuardEdges(c10VarIs(ar, hit, false)),
+					// the edges on which the lookup has missed: the hit flag is false, or a boolean that relays
+					// the flag (a helper's comma-ok result: constant false exactly after a miss) is false
+					missEdges := []func(*cfg.Block, int) bool{ar.GuardEdges(c10VarIs(ar, hit, false))}
+					for _, w := range c10MissRelays(ar, t.Pt, c10VarIs(ar, hit, false)) {
+						missEdges = append(missEdges, ar.GuardEdges(c10VarIs(ar, w, false)))
+					}
+					missed := func(b *cfg.Block, s int) bool {
+						for _, m := range missEdges {
+							if m(b, s) {
+								return true
+							}
+						}
+						return false
+					}
+					q := core.PathQuery{F: ar, From: t.Pt, FromAfter: true, Avoid: core.PointSet(core.Points(adds)...), AvoidEdge: missed,
 						TargetBlock: func(b *cfg.Block) bool { return b == loop.Head }, TargetExit: true}
 					if p, found := q.Find(); found {
 						ok, det = false, "after a cache hit the iteration can finish without storing the list back under its frame ("+ar.DescribePath(p)+")"
